@@ -310,7 +310,9 @@ def run(ctx):
         ctx.count("malformed_datagrams")
     # ---- hello
     from geckolib.driver import protocol as P
-    names = [b"My Spa", b"", b"Spa|with|bars", b"caf\xe9 \xfc", nasty(rng, 12), b"|", b"1"]
+    names = [b"My Spa", b"", b"Spa|with|bars", b"caf\xe9 \xfc", nasty(rng, 12), b"|", b"1",
+             # names that begin / end with bytes str.strip() would eat after a latin-1 decode, and names made of such bytes only
+             b" Spa ", b"Spa\t", b"\xa0Spa", b"Spa\x85", b"\x1fSpa\x1c", b" ", b"\r\n", b"Spa \x0b"]
     ids = [b"SPA00:01:02:03:04:05", b"SPA", b"", b"X1"]
     hcases = [("HBroadcast",)] + [("HClient", b"IOS" + rnd_bytes(rng, 8)), ("HClient", b"AND1234"), ("HClient", b"IOS|x")]
     hcases += [("HResponse", i, n) for i in ids for n in names]
